@@ -184,7 +184,11 @@ func (s *Updater) Update(liveObject, newObject *typed.TypedValue, version fieldp
 	}
 	var ignoreFilter fieldpath.Filter
 	if s.IgnoredFields != nil {
-		ignoreFilter = fieldpath.NewExcludeSetFilter(s.IgnoredFields[version])
+		// a version without an entry has nothing ignored (an exclude filter over a nil set would
+		// dereference it)
+		if ignored := s.IgnoredFields[version]; ignored != nil {
+			ignoreFilter = fieldpath.NewExcludeSetFilter(ignored)
+		}
 	} else {
 		ignoreFilter = s.IgnoreFilter[version]
 	}
@@ -227,7 +231,11 @@ func (s *Updater) Apply(liveObject, configObject *typed.TypedValue, version fiel
 	}
 	var ignoreFilter fieldpath.Filter
 	if s.IgnoredFields != nil {
-		ignoreFilter = fieldpath.NewExcludeSetFilter(s.IgnoredFields[version])
+		// a version without an entry has nothing ignored (an exclude filter over a nil set would
+		// dereference it)
+		if ignored := s.IgnoredFields[version]; ignored != nil {
+			ignoreFilter = fieldpath.NewExcludeSetFilter(ignored)
+		}
 	} else {
 		ignoreFilter = s.IgnoreFilter[version]
 	}
